@@ -66,6 +66,7 @@ class RadioMixin:
 
     def __enter__(self):
         self._rf24.__enter__()
+        self._rf24.listen = True  # a network node listens whenever it is not sending
         return self
 
     def __exit__(self, *exc):
